@@ -123,29 +123,3 @@ fn k_unicode_surrogates() {
   std::mem::forget(scope);
 }
 
-/// C05: name lexing in `for`/`some`/`every` variable position (till_in) never panics, whatever follows the keyword position.
-/// Bound: 4 input characters over the alphabet {i, n, x, (, +, ., space}; empty parsing scope.
-#[kani::proof]
-#[kani::unwind(12)]
-#[kani::stub(alloc::fmt::format, stub_format)]
-fn k_consume_name_till_in() {
-  let alphabet = ['i', 'n', 'x', '(', '+', '.', ' '];
-  let mut input = vec![];
-  let sel: [u8; 4] = kani::any();
-  let mut k = 0;
-  while k < 4 {
-    kani::assume(sel[k] < 7);
-    input.push(alphabet[sel[k] as usize]);
-    k += 1;
-  }
-  kani::assume(sel[0] < 3); // a name start character
-  let scope = Scope::default();
-  let mut lexer = lexer_over(&scope, input);
-  lexer.till_in = true;
-  /*KNOWN:k_consume_name_till_in*/
-  let r = lexer.consume_name();
-  kani::cover!(r.is_ok(), "some name is recognised");
-  std::mem::forget(r);
-  std::mem::forget(lexer);
-  std::mem::forget(scope);
-}
